@@ -16,24 +16,24 @@ def fuelOut {α : Type} (what : String) : M α := throw ("model-fuel@model: " ++
 
 /-! ### small accessors -/
 
-/-- `html_elem_named` (mod.rs:1110) -/
+/-- `html_elem_named` (mod.rs:1112) -/
 def htmlElemNamedS (h : Id) (name : Str) : M Bool := do
   let n ← elemName h
   pure (n.ns == nsHtml && n.loc == name)
 
 def htmlElemNamed (h : Id) (name : String) : M Bool := htmlElemNamedS h name.toList
 
-/-- `elem_in` (mod.rs:1103) -/
+/-- `elem_in` (mod.rs:1105) -/
 def elemIn (h : Id) (set : EName → Bool) : M Bool := do
   pure (set (← elemName h))
 
-/-- `current_node()` (mod.rs:683) -/
+/-- `current_node()` (mod.rs:685) -/
 def currentNode : M Id := do
   match (← getS).openElems.getLast? with
   | some h => pure h
-  | none => panicAt "no-current-element" "mod.rs:685" "expect(\"no current element\")"
+  | none => panicAt "no-current-element" "mod.rs:687" "expect(\"no current element\")"
 
-/-- `adjusted_current_node()` (mod.rs:689) -/
+/-- `adjusted_current_node()` (mod.rs:691) -/
 def adjustedCurrentNode : M Id := do
   let s ← getS
   if s.openElems.length == 1 then
@@ -42,41 +42,41 @@ def adjustedCurrentNode : M Id := do
     | none => currentNode
   else currentNode
 
-/-- `current_node_in(set)` (mod.rs:700) -/
+/-- `current_node_in(set)` (mod.rs:702) -/
 def currentNodeIn (set : EName → Bool) : M Bool := do
   let h ← currentNode
   pure (set (← elemName h))
 
-/-- `current_node_named(name)` (mod.rs:1122) -/
+/-- `current_node_named(name)` (mod.rs:1124) -/
 def currentNodeNamedS (name : Str) : M Bool := do
   let h ← currentNode
   htmlElemNamedS h name
 
 def currentNodeNamed (name : String) : M Bool := currentNodeNamedS name.toList
 
-/-- `html_elem()` (mod.rs:1038) -/
+/-- `html_elem()` (mod.rs:1040) -/
 def htmlElem : M Id := do
   match (← getS).openElems.head? with
   | some h => pure h
-  | none => panicAt "index-oob" "mod.rs:1039" "elems[0]"
+  | none => panicAt "index-oob" "mod.rs:1041" "elems[0]"
 
-/-- the free function `html_elem(&open_elems)` (mod.rs:558) -/
+/-- the free function `html_elem(&open_elems)` (mod.rs:560) -/
 def htmlElemFn : M Id := do
   match (← getS).openElems.head? with
   | some h => pure h
-  | none => panicAt "index-oob" "mod.rs:559" "open_elems[0]"
+  | none => panicAt "index-oob" "mod.rs:561" "open_elems[0]"
 
 /-- `is_fragment()` -/
 def isFragment : M Bool := do pure (← getS).contextElem.isSome
 
-/-- `push` (mod.rs:923) -/
+/-- `push` (mod.rs:925) -/
 def push (h : Id) : M Unit := modS fun s => { s with openElems := s.openElems ++ [h] }
 
-/-- `pop` (mod.rs:927) -/
+/-- `pop` (mod.rs:929) -/
 def pop : M Id := do
   let s ← getS
   match s.openElems.getLast? with
-  | none => panicAt "no-current-element" "mod.rs:932" "expect(\"no current element\")"
+  | none => panicAt "no-current-element" "mod.rs:934" "expect(\"no current element\")"
   | some h =>
     set { s with openElems := s.openElems.dropLast }
     sinkUnit (.pop h)
@@ -95,17 +95,17 @@ def setMode (m : Mode) : M Unit := modS fun s => { s with mode := m }
 def setFramesetOk (b : Bool) : M Unit := modS fun s => { s with framesetOk := b }
 def pushMarker : M Unit := modS fun s => { s with activeFormatting := s.activeFormatting ++ [.marker] }
 
-/-- `unexpected(thing)` (mod.rs:621) -/
+/-- `unexpected(thing)` (mod.rs:623) -/
 def unexpected : M ProcessResult := do
   parseError "Unexpected token"
   pure .done
 
-/-- `set_quirks_mode` (mod.rs:656) -/
+/-- `set_quirks_mode` (mod.rs:658) -/
 def setQuirksMode (m : QuirksMode) : M Unit := do
   modS fun s => { s with quirksMode := m }
   sinkUnit (.setQuirksMode m)
 
-/-- `to_raw_text_mode` (mod.rs:670) -/
+/-- `to_raw_text_mode` (mod.rs:672) -/
 def toRawTextMode (k : RawKind) : M ProcessResult := do
   modS fun s => { s with origMode := some s.mode, mode := .text }
   pure (.toRawData k)
@@ -162,12 +162,12 @@ def insertAt (p : InsertionPoint) (child : NodeOrText) : M Unit :=
   | .beforeSibling sibling => sinkUnit (.appendBeforeSibling sibling child)
   | .tableFosterParenting element prev => sinkUnit (.appendBasedOnParentNode element prev child)
 
-/-- `insert_appropriately` (mod.rs:708) -/
+/-- `insert_appropriately` (mod.rs:710) -/
 def insertAppropriately (child : NodeOrText) (overrideTarget : Option Id) : M Unit := do
   let p ← appropriatePlaceForInsertion overrideTarget
   insertAt p child
 
-/-- `in_html_elem_named` (mod.rs:1115): `open_elems.iter().any(..)` -/
+/-- `in_html_elem_named` (mod.rs:1117): `open_elems.iter().any(..)` -/
 def anyHtmlElemNamed (name : String) : List Id → M Bool
   | [] => pure false
   | e :: rest => do
@@ -182,7 +182,7 @@ def InsertionPoint.nodes : InsertionPoint → Id × Option Id
   | .beforeSibling p => (p, none)
   | .tableFosterParenting e pe => (e, some pe)
 
-/-- `insert_element` (mod.rs:1358) -/
+/-- `insert_element` (mod.rs:1360) -/
 def insertElement (pushIt : Bool) (ns : Str) (name : Str) (attrs : List Attr) (hadDup : Bool) : M Id := do
   let ip ← appropriatePlaceForInsertion none
   let (node1, node2) := ip.nodes
@@ -198,19 +198,19 @@ def insertElement (pushIt : Bool) (ns : Str) (name : Str) (attrs : List Attr) (h
   if formIsAssociatable then
     match (← getS).formElem with
     | some form => sinkUnit (.associateWithForm elem form node1 node2)
-    | none => panicAt "unwrap-none" "mod.rs:1399" "form_elem unwrap"
+    | none => panicAt "unwrap-none" "mod.rs:1401" "form_elem unwrap"
   insertAt ip (.node elem)
   if pushIt then push elem
   pure elem
 
-/-- `insert_element_for` (mod.rs:1414) -/
+/-- `insert_element_for` (mod.rs:1416) -/
 def insertElementFor (tag : Tag) : M Id := insertElement true nsHtml tag.name tag.attrs tag.hadDup
-/-- `insert_and_pop_element_for` (mod.rs:1424) -/
+/-- `insert_and_pop_element_for` (mod.rs:1426) -/
 def insertAndPopElementFor (tag : Tag) : M Id := insertElement false nsHtml tag.name tag.attrs tag.hadDup
-/-- `insert_phantom` (mod.rs:1434) -/
+/-- `insert_phantom` (mod.rs:1436) -/
 def insertPhantom (name : String) : M Id := insertElement true nsHtml name.toList [] false
 
-/-- `insert_foreign_element` (mod.rs:1439) -/
+/-- `insert_foreign_element` (mod.rs:1441) -/
 def insertForeignElement (tag : Tag) (ns : Str) (onlyAddToElementStack : Bool) : M Id := do
   let loc ← appropriatePlaceForInsertion none
   let elem ← createElementWithFlags { pfx := none, ns := ns, loc := tag.name } tag.attrs tag.hadDup
@@ -218,44 +218,44 @@ def insertForeignElement (tag : Tag) (ns : Str) (onlyAddToElementStack : Bool) :
   push elem
   pure elem
 
-/-- `create_root` (mod.rs:1346) -/
+/-- `create_root` (mod.rs:1348) -/
 def createRoot (attrs : List Attr) : M Unit := do
   let elem ← createElementWithFlags (htmlQual "html".toList) attrs false
   push elem
   sinkUnit (.append (← getS).docHandle (.node elem))
 
-/-- `append_text` (mod.rs:1320) -/
+/-- `append_text` (mod.rs:1322) -/
 def appendText (text : Str) : M ProcessResult := do
   insertAppropriately (.text text) none
   pure .done
 
-/-- `append_comment` (mod.rs:1325) -/
+/-- `append_comment` (mod.rs:1327) -/
 def appendComment (text : Str) : M ProcessResult := do
   let c ← sinkNode (.createComment text)
   insertAppropriately (.node c) none
   pure .done
 
-/-- `append_comment_to_doc` (mod.rs:1331) -/
+/-- `append_comment_to_doc` (mod.rs:1333) -/
 def appendCommentToDoc (text : Str) : M ProcessResult := do
   let c ← sinkNode (.createComment text)
   sinkUnit (.append (← getS).docHandle (.node c))
   pure .done
 
-/-- `append_comment_to_html` (mod.rs:1337) -/
+/-- `append_comment_to_html` (mod.rs:1339) -/
 def appendCommentToHtml (text : Str) : M ProcessResult := do
   let target ← htmlElemFn
   let c ← sinkNode (.createComment text)
   sinkUnit (.append target (.node c))
   pure .done
 
-/-- `parse_raw_data` (mod.rs:677) -/
+/-- `parse_raw_data` (mod.rs:679) -/
 def parseRawData (tag : Tag) (k : RawKind) : M ProcessResult := do
   let _ ← insertElementFor tag
   toRawTextMode k
 
 /-! ### scope predicates, implied end tags, popping -/
 
-/-- `in_scope` (mod.rs:1084) over `open_elems.iter().rev()` -/
+/-- `in_scope` (mod.rs:1086) over `open_elems.iter().rev()` -/
 def inScopeLoop (scope : EName → Bool) (pred : Id → M Bool) : List Id → M Bool
   | [] => pure false
   | node :: rest => do
@@ -266,13 +266,13 @@ def inScopeLoop (scope : EName → Bool) (pred : Id → M Bool) : List Id → M 
 def inScope (scope : EName → Bool) (pred : Id → M Bool) : M Bool := do
   inScopeLoop scope pred (← getS).openElems.reverse
 
-/-- `in_scope_named` (mod.rs:1126) -/
+/-- `in_scope_named` (mod.rs:1128) -/
 def inScopeNamedS (scope : EName → Bool) (name : Str) : M Bool :=
   inScope scope (fun h => htmlElemNamedS h name)
 
 def inScopeNamed (scope : EName → Bool) (name : String) : M Bool := inScopeNamedS scope name.toList
 
-/-- `generate_implied_end_tags` (mod.rs:1134); fuel: one pop per iteration -/
+/-- `generate_implied_end_tags` (mod.rs:1136); fuel: one pop per iteration -/
 def generateImpliedEndTagsLoop (set : EName → Bool) : Nat → M Unit
   | 0 => fuelOut "generate_implied_end_tags"
   | fuel + 1 => do
@@ -287,10 +287,10 @@ def generateImpliedEndTagsLoop (set : EName → Bool) : Nat → M Unit
 def generateImpliedEndTags (set : EName → Bool) : M Unit := do
   generateImpliedEndTagsLoop set ((← getS).openElems.length + 1)
 
-/-- `generate_implied_end_except` (mod.rs:1153) -/
+/-- `generate_implied_end_except` (mod.rs:1155) -/
 def generateImpliedEndExcept (except : Str) : M Unit := generateImpliedEndTags (impliedExcept except)
 
-/-- `pop_until_current` (mod.rs:1165); fuel: one pop per iteration, `current_node` panics on the
+/-- `pop_until_current` (mod.rs:1167); fuel: one pop per iteration, `current_node` panics on the
 empty stack -/
 def popUntilCurrentLoop (set : EName → Bool) : Nat → M Unit
   | 0 => fuelOut "pop_until_current"
@@ -303,7 +303,7 @@ def popUntilCurrentLoop (set : EName → Bool) : Nat → M Unit
 def popUntilCurrent (set : EName → Bool) : M Unit := do
   popUntilCurrentLoop set ((← getS).openElems.length + 1)
 
-/-- `pop_until` (mod.rs:1176): returns the number of iterations -/
+/-- `pop_until` (mod.rs:1178): returns the number of iterations -/
 def popUntilLoop (pred : EName → Bool) : Nat → Nat → M Nat
   | 0, _ => fuelOut "pop_until"
   | fuel + 1, n => do
@@ -317,32 +317,32 @@ def popUntilLoop (pred : EName → Bool) : Nat → Nat → M Nat
 def popUntil (pred : EName → Bool) : M Nat := do
   popUntilLoop pred ((← getS).openElems.length + 1) 0
 
-/-- `pop_until_named` (mod.rs:1196) -/
+/-- `pop_until_named` (mod.rs:1198) -/
 def popUntilNamedS (name : Str) : M Nat := popUntil (fun p => p.ns == nsHtml && p.loc == name)
 def popUntilNamed (name : String) : M Nat := popUntilNamedS name.toList
 
-/-- `expect_to_close` (mod.rs:1202) -/
+/-- `expect_to_close` (mod.rs:1204) -/
 def expectToCloseS (name : Str) : M Unit := do
   if (← popUntilNamedS name) != 1 then parseError "Unexpected open element"
 
 def expectToClose (name : String) : M Unit := expectToCloseS name.toList
 
-/-- `close_p_element` (mod.rs:1212) -/
+/-- `close_p_element` (mod.rs:1214) -/
 def closePElement : M Unit := do
   generateImpliedEndTags impliedExceptP
   expectToClose "p"
 
-/-- `close_p_element_in_button_scope` (mod.rs:1218) -/
+/-- `close_p_element_in_button_scope` (mod.rs:1220) -/
 def closePElementInButtonScope : M Unit := do
   if ← inScopeNamed buttonScope "p" then closePElement
 
-/-- `is_type_hidden` (mod.rs:1225) -/
+/-- `is_type_hidden` (mod.rs:1227) -/
 def isTypeHidden (tag : Tag) : Bool :=
   match tag.attrs.find? (fun a => a.name.ns == [] && isName a.name.loc "type") with
   | none => false
   | some a => eqIgnoreAsciiCase a.value "hidden".toList
 
-/-- `check_body_end` (mod.rs:1058) -/
+/-- `check_body_end` (mod.rs:1060) -/
 def checkBodyEndLoop : List Id → M Unit
   | [] => pure ()
   | elem :: rest => do
@@ -351,7 +351,7 @@ def checkBodyEndLoop : List Id → M Unit
 
 def checkBodyEnd : M Unit := do checkBodyEndLoop (← getS).openElems
 
-/-- `body_elem` (mod.rs:1043) -/
+/-- `body_elem` (mod.rs:1045) -/
 def bodyElem : M (Option Id) := do
   let s ← getS
   if s.openElems.length ≤ 1 then pure none
@@ -360,7 +360,7 @@ def bodyElem : M (Option Id) := do
     | some node => do
       if ← htmlElemNamed node "body" then pure (some node) else pure none
 
-/-- `remove_from_stack` (mod.rs:938): `rposition(|x| same_node(elem, x))` -/
+/-- `remove_from_stack` (mod.rs:940): `rposition(|x| same_node(elem, x))` -/
 def rpositionLoop (p : Id → M Bool) : List Id → Nat → M (Option Nat)
   | [], _ => pure none
   | x :: rest, len => do
@@ -381,7 +381,7 @@ def removeFromStack (elem : Id) : M Unit := do
 
 /-! ### the list of active formatting elements -/
 
-/-- `active_formatting_end_to_marker().iter()` (mod.rs:566): from the end to the last marker -/
+/-- `active_formatting_end_to_marker().iter()` (mod.rs:568): from the end to the last marker -/
 def afEndToMarkerAux : List (FormatEntry × Nat) → List (Nat × Id × Tag)
   | [] => []
   | (.marker, _) :: _ => []
@@ -390,7 +390,7 @@ def afEndToMarkerAux : List (FormatEntry × Nat) → List (Nat × Id × Tag)
 def afEndToMarker (af : List FormatEntry) : List (Nat × Id × Tag) :=
   afEndToMarkerAux af.zipIdx.reverse
 
-/-- `position_in_active_formatting` (mod.rs:646) -/
+/-- `position_in_active_formatting` (mod.rs:648) -/
 def positionInAFLoop (element : Id) : List FormatEntry → Nat → M (Option Nat)
   | [], _ => pure none
   | .marker :: rest, i => positionInAFLoop element rest (i + 1)
@@ -408,7 +408,7 @@ def afRemove (i : Nat) (site : String) : M Unit := do
   if i < af.length then setAF (af.eraseIdx i)
   else panicAt "remove-oob" site "Vec::remove"
 
-/-- `is_marker_or_open` (mod.rs:950): `open_elems.iter().rev().any(|n| same_node(n, node))` -/
+/-- `is_marker_or_open` (mod.rs:952): `open_elems.iter().rev().any(|n| same_node(n, node))` -/
 def anySameNodeRev (node : Id) : List Id → M Bool
   | [] => pure false
   | n :: rest => do
@@ -418,35 +418,35 @@ def isMarkerOrOpen : FormatEntry → M Bool
   | .marker => pure true
   | .element node _ => do anySameNodeRev node (← getS).openElems.reverse
 
-/-- the rewind loop of `reconstruct_active_formatting_elements` (mod.rs:984): `entry_index` is the
+/-- the rewind loop of `reconstruct_active_formatting_elements` (mod.rs:986): `entry_index` is the
 argument; returns the index at which creation starts -/
 def reconstructRewind : Nat → M Nat
   | 0 => pure 0
   | i + 1 => do
     -- `entry_index -= 1` gives `i`
     match (← getS).activeFormatting[i]? with
-    | none => panicAt "index-oob" "mod.rs:998" "active_formatting[entry_index]"
+    | none => panicAt "index-oob" "mod.rs:1000" "active_formatting[entry_index]"
     | some e =>
       if ← isMarkerOrOpen e then pure (i + 1) else reconstructRewind i
 
-/-- the create loop (mod.rs:1004); fuel: `entry_index` increases up to `len - 1` -/
+/-- the create loop (mod.rs:1006); fuel: `entry_index` increases up to `len - 1` -/
 def reconstructCreate : Nat → Nat → M Unit
   | 0, _ => fuelOut "reconstruct_active_formatting_elements"
   | fuel + 1, entryIndex => do
     let tag ← match (← getS).activeFormatting[entryIndex]? with
       | some (.element _ t) => pure t
-      | some .marker => panicAt "marker-in-reconstruct" "mod.rs:1010" "Found marker during formatting element reconstruction"
-      | none => panicAt "index-oob" "mod.rs:1007" "active_formatting[entry_index]"
+      | some .marker => panicAt "marker-in-reconstruct" "mod.rs:1012" "Found marker during formatting element reconstruction"
+      | none => panicAt "index-oob" "mod.rs:1009" "active_formatting[entry_index]"
     let newElement ← insertElement true nsHtml tag.name tag.attrs tag.hadDup
     let af := (← getS).activeFormatting
     if entryIndex < af.length then setAF (af.set entryIndex (.element newElement tag))
-    else panicAt "index-oob" "mod.rs:1025" "active_formatting[entry_index] ="
+    else panicAt "index-oob" "mod.rs:1027" "active_formatting[entry_index] ="
     let len := (← getS).activeFormatting.length
-    if len == 0 then panicAt "sub-overflow" "mod.rs:1030" "len() - 1"
+    if len == 0 then panicAt "sub-overflow" "mod.rs:1032" "len() - 1"
     else if entryIndex == len - 1 then pure ()
     else reconstructCreate fuel (entryIndex + 1)
 
-/-- `reconstruct_active_formatting_elements` (mod.rs:963) -/
+/-- `reconstruct_active_formatting_elements` (mod.rs:965) -/
 def reconstructActiveFormattingElements : M Unit := do
   let af := (← getS).activeFormatting
   match af.getLast? with
@@ -463,19 +463,19 @@ iff the lists are permutations of each other -/
 def Tag.equivModuloAttrOrder (a b : Tag) : Bool :=
   a.kind == b.kind && a.name == b.name && a.attrs.isPerm b.attrs
 
-/-- `create_formatting_element_for` (mod.rs:1516), with the Noah's Ark clause -/
+/-- `create_formatting_element_for` (mod.rs:1518), with the Noah's Ark clause -/
 def createFormattingElementFor (tag : Tag) : M Id := do
   let ms := (afEndToMarker (← getS).activeFormatting).filter (fun (_, _, old) => tag.equivModuloAttrOrder old)
   -- `first_match` is overwritten on every match: it ends up as the last one visited
   if ms.length ≥ 3 then
     match ms.getLast? with
-    | some (i, _, _) => afRemove i "mod.rs:1528"
-    | none => panicAt "matches-no-index" "mod.rs:1530" "expect(\"matches with no index\")"
+    | some (i, _, _) => afRemove i "mod.rs:1530"
+    | none => panicAt "matches-no-index" "mod.rs:1532" "expect(\"matches with no index\")"
   let elem ← insertElement true nsHtml tag.name tag.attrs tag.hadDup
   modS fun s => { s with activeFormatting := s.activeFormatting ++ [.element elem tag] }
   pure elem
 
-/-- `clear_active_formatting_to_marker` (mod.rs:1546) on the reversed list -/
+/-- `clear_active_formatting_to_marker` (mod.rs:1548) on the reversed list -/
 def clearToMarkerRev : List FormatEntry → List FormatEntry
   | [] => []
   | .marker :: rest => rest
@@ -486,7 +486,7 @@ def clearActiveFormattingToMarker : M Unit :=
 
 /-! ### "any other end tag" and the adoption agency -/
 
-/-- the search loop of `process_end_tag_in_body` (mod.rs:1558) over `enumerate().rev()`;
+/-- the search loop of `process_end_tag_in_body` (mod.rs:1560) over `enumerate().rev()`;
 `some (some i)` = match at index `i`, `some none` = no match, `none` = special tag found (error
 already reported, the caller returns) -/
 def endTagSearch (name : Str) : List Id → Nat → M (Option (Option Nat))
@@ -498,7 +498,7 @@ def endTagSearch (name : Str) : List Id → Nat → M (Option (Option Nat))
       pure none
     else endTagSearch name rest (len - 1)
 
-/-- `process_end_tag_in_body` (mod.rs:1555) -/
+/-- `process_end_tag_in_body` (mod.rs:1557) -/
 def processEndTagInBody (tag : Tag) : M Unit := do
   let l := (← getS).openElems
   match ← endTagSearch tag.name l.reverse l.length with
@@ -508,44 +508,44 @@ def processEndTagInBody (tag : Tag) : M Unit := do
   | some (some matchIdx) =>
     generateImpliedEndExcept tag.name
     let len := (← getS).openElems.length
-    if len == 0 then panicAt "sub-overflow" "mod.rs:1580" "open_elems.len() - 1"
+    if len == 0 then panicAt "sub-overflow" "mod.rs:1582" "open_elems.len() - 1"
     else
       if matchIdx != len - 1 then
         let _ ← unexpected
       modS fun s => { s with openElems := s.openElems.take matchIdx }
 
-/-- `enumerate().skip(k).find(|e| elem_in(e, special_tag))` (mod.rs:770) -/
+/-- `enumerate().skip(k).find(|e| elem_in(e, special_tag))` (mod.rs:772) -/
 def findFurthestBlock : List Id → Nat → M (Option (Nat × Id))
   | [], _ => pure none
   | e :: rest, i => do
     if ← elemIn e specialTag then pure (some (i, e)) else findFurthestBlock rest (i + 1)
 
-/-- `open_elems.iter().position(|n| same_node(n, x))` (mod.rs:909) -/
+/-- `open_elems.iter().position(|n| same_node(n, x))` (mod.rs:911) -/
 def positionSameNode (x : Id) : List Id → Nat → M (Option Nat)
   | [], _ => pure none
   | n :: rest, i => do
     if ← sameNode n x then pure (some i) else positionSameNode x rest (i + 1)
 
-/-- `enum Bookmark` (mod.rs:593) -/
+/-- `enum Bookmark` (mod.rs:595) -/
 inductive Bookmark
   | replace (h : Id)
   | insertAfter (h : Id)
 deriving Repr
 
-/-- the inner loop of the adoption agency (mod.rs:799).  The first argument is `node_index` *before*
+/-- the inner loop of the adoption agency (mod.rs:801).  The first argument is `node_index` *before*
 `node_index -= 1`; every iteration decrements it, hence structural recursion.
 Returns `(last_node, bookmark)`. -/
 def aaInner (fmtElem furthestBlock : Id) : Nat → Nat → Id → Bookmark → M (Id × Bookmark)
-  | 0, _, _, _ => panicAt "sub-overflow" "mod.rs:804" "node_index -= 1"
+  | 0, _, _, _ => panicAt "sub-overflow" "mod.rs:806" "node_index -= 1"
   | nodeIndex + 1, innerCounter, lastNode, bookmark => do
     let innerCounter := innerCounter + 1
     let node ← match (← getS).openElems[nodeIndex]? with
       | some n => pure n
-      | none => panicAt "index-oob" "mod.rs:805" "open_elems[node_index]"
+      | none => panicAt "index-oob" "mod.rs:807" "open_elems[node_index]"
     if ← sameNode node fmtElem then pure (lastNode, bookmark)
     else if innerCounter > 3 then
       match ← positionInActiveFormatting node with
-      | some position => afRemove position "mod.rs:815"
+      | some position => afRemove position "mod.rs:817"
       | none => pure ()
       -- `open_elems.remove(node_index)`: the index was just read, it is in bounds
       modS fun s => { s with openElems := s.openElems.eraseIdx nodeIndex }
@@ -559,10 +559,10 @@ def aaInner (fmtElem furthestBlock : Id) : Nat → Nat → Id → Bookmark → M
         let tag ← match (← getS).activeFormatting[nfi]? with
           | some (.element h t) => do
             if !(← sameNode h node) then
-              panicAt "assert" "mod.rs:829" "assert!(self.sink.same_node(h, &node))"
+              panicAt "assert" "mod.rs:831" "assert!(self.sink.same_node(h, &node))"
             pure t
-          | some .marker => panicAt "marker-in-aa" "mod.rs:832" "Found marker during adoption agency"
-          | none => panicAt "index-oob" "mod.rs:827" "active_formatting[node_formatting_index]"
+          | some .marker => panicAt "marker-in-aa" "mod.rs:834" "Found marker during adoption agency"
+          | none => panicAt "index-oob" "mod.rs:829" "active_formatting[node_formatting_index]"
         let newElement ← createElementWithFlags (htmlQual tag.name) tag.attrs tag.hadDup
         modS fun s => { s with
           openElems := s.openElems.set nodeIndex newElement,
@@ -573,7 +573,7 @@ def aaInner (fmtElem furthestBlock : Id) : Nat → Nat → Id → Bookmark → M
         sinkUnit (.append node (.node lastNode))
         aaInner fmtElem furthestBlock nodeIndex innerCounter node bookmark
 
-/-- one iteration of the outer loop (mod.rs:725–920); `true` = `return` from `adoption_agency` -/
+/-- one iteration of the outer loop (mod.rs:727–920); `true` = `return` from `adoption_agency` -/
 def aaOuterStep (subject : Str) : M Bool := do
   -- 5.
   match (afEndToMarker (← getS).activeFormatting).find? (fun (_, _, t) => t.name == subject) with
@@ -584,7 +584,7 @@ def aaOuterStep (subject : Str) : M Bool := do
     match ← rposition (fun n => sameNode n fmtElem) with
     | none =>
       parseError "Formatting element not open"
-      afRemove fmtElemIndex "mod.rs:752"
+      afRemove fmtElemIndex "mod.rs:754"
       pure true
     | some fmtElemStackIndex =>
       -- 7.
@@ -600,14 +600,14 @@ def aaOuterStep (subject : Str) : M Bool := do
         | none =>
           -- 10.
           modS fun s => { s with openElems := s.openElems.take fmtElemStackIndex }
-          afRemove fmtElemIndex "mod.rs:782"
+          afRemove fmtElemIndex "mod.rs:784"
           pure true
         | some (furthestBlockIndex, furthestBlock) =>
           -- 11.
-          if fmtElemStackIndex == 0 then panicAt "sub-overflow" "mod.rs:787" "fmt_elem_stack_index - 1"
+          if fmtElemStackIndex == 0 then panicAt "sub-overflow" "mod.rs:789" "fmt_elem_stack_index - 1"
           let commonAncestor ← match (← getS).openElems[fmtElemStackIndex - 1]? with
             | some c => pure c
-            | none => panicAt "index-oob" "mod.rs:787" "open_elems[fmt_elem_stack_index - 1]"
+            | none => panicAt "index-oob" "mod.rs:789" "open_elems[fmt_elem_stack_index - 1]"
           -- 12. 13.
           let (lastNode, bookmark) ←
             aaInner fmtElem furthestBlock furthestBlockIndex 0 furthestBlock (.replace fmtElem)
@@ -624,20 +624,20 @@ def aaOuterStep (subject : Str) : M Bool := do
           match bookmark with
           | .replace toReplace =>
             match ← positionInActiveFormatting toReplace with
-            | none => panicAt "bookmark-missing" "mod.rs:891" "bookmark not found in active formatting elements"
+            | none => panicAt "bookmark-missing" "mod.rs:893" "bookmark not found in active formatting elements"
             | some index => modS fun s => { s with activeFormatting := s.activeFormatting.set index newEntry }
           | .insertAfter previous =>
             match ← positionInActiveFormatting previous with
-            | none => panicAt "bookmark-missing" "mod.rs:897" "bookmark not found in active formatting elements"
+            | none => panicAt "bookmark-missing" "mod.rs:899" "bookmark not found in active formatting elements"
             | some index =>
               modS fun s => { s with activeFormatting := s.activeFormatting.insertIdx (index + 1) newEntry }
               match ← positionInActiveFormatting fmtElem with
-              | none => panicAt "fmt-missing" "mod.rs:902" "formatting element not found in active formatting elements"
-              | some oldIndex => afRemove oldIndex "mod.rs:903"
+              | none => panicAt "fmt-missing" "mod.rs:904" "formatting element not found in active formatting elements"
+              | some oldIndex => afRemove oldIndex "mod.rs:905"
           -- 19.
           removeFromStack fmtElem
           match ← positionSameNode furthestBlock (← getS).openElems 0 with
-          | none => panicAt "fb-missing" "mod.rs:914" "furthest block missing from open element stack"
+          | none => panicAt "fb-missing" "mod.rs:916" "furthest block missing from open element stack"
           | some nfbi =>
             modS fun s => { s with openElems := s.openElems.insertIdx (nfbi + 1) newElement }
             pure false
@@ -648,7 +648,7 @@ def aaOuter (subject : Str) : Nat → M Unit
   | n + 1 => do
     if ← aaOuterStep subject then pure () else aaOuter subject n
 
-/-- `adoption_agency` (mod.rs:713) -/
+/-- `adoption_agency` (mod.rs:715) -/
 def adoptionAgency (subject : Str) : M Unit := do
   -- 1.
   let shortcut ← do
@@ -660,7 +660,7 @@ def adoptionAgency (subject : Str) : M Unit := do
     let _ ← pop
   else aaOuter subject 8
 
-/-- `handle_misnested_a_tags` (mod.rs:1587) -/
+/-- `handle_misnested_a_tags` (mod.rs:1589) -/
 def findAInAF : List (Nat × Id × Tag) → M (Option Id)
   | [] => pure none
   | (_, n, _) :: rest => do
@@ -673,7 +673,7 @@ def handleMisnestedATags : M Unit := do
     let _ ← unexpected
     adoptionAgency "a".toList
     match ← positionInActiveFormatting node with
-    | some index => afRemove index "mod.rs:1600"
+    | some index => afRemove index "mod.rs:1602"
     | none => pure ()
     removeFromStack node
 
@@ -682,7 +682,7 @@ def handleMisnestedATags : M Unit := do
 inductive ResetStep | ret (m : Mode) | cont
 deriving Repr
 
-/-- `reset_insertion_mode` (mod.rs:1265) over `open_elems.iter().enumerate().rev()` -/
+/-- `reset_insertion_mode` (mod.rs:1267) over `open_elems.iter().enumerate().rev()` -/
 def resetLoop : List Id → Nat → M Mode
   | [], _ => pure .inBody
   | node :: rest, len => do
@@ -703,7 +703,7 @@ def resetLoop : List Id → Nat → M Mode
       else if isName n.loc "template" then
         match s.templateModes.getLast? with
         | some m => pure m
-        | none => panicAt "unwrap-none" "mod.rs:1292" "template_modes.last().unwrap()"
+        | none => panicAt "unwrap-none" "mod.rs:1294" "template_modes.last().unwrap()"
       else if isName n.loc "head" then
         if !last then pure .inHead else resetLoop rest (len - 1)
       else if isName n.loc "body" then pure .inBody
@@ -718,7 +718,7 @@ def resetInsertionMode : M Mode := do
   let l := (← getS).openElems
   resetLoop l.reverse l.length
 
-/-- `close_the_cell` (mod.rs:1311) -/
+/-- `close_the_cell` (mod.rs:1313) -/
 def closeTheCell : M Unit := do
   generateImpliedEndTags cursoryImpliedEnd
   if (← popUntil tdTh) != 1 then parseError "expected to close <td> or <th> with cell"
@@ -726,7 +726,7 @@ def closeTheCell : M Unit := do
 
 /-! ### foreign content -/
 
-/-- `enter_foreign` (mod.rs:1665) -/
+/-- `enter_foreign` (mod.rs:1667) -/
 def enterForeign (tag : Tag) (ns : Str) : M ProcessResult := do
   let tag := if ns == nsMathml then adjustMathmlAttributes tag
     else if ns == nsSvg then adjustSvgAttributes tag else tag
@@ -738,7 +738,7 @@ def enterForeign (tag : Tag) (ns : Str) : M ProcessResult := do
     let _ ← insertElement true ns tag.name tag.attrs tag.hadDup
     pure .done
 
-/-- `foreign_start_tag` (mod.rs:1837) -/
+/-- `foreign_start_tag` (mod.rs:1839) -/
 def foreignStartTag (tag : Tag) : M ProcessResult := do
   let cur ← adjustedCurrentNode
   let currentNs := (← elemName cur).ns
@@ -753,7 +753,7 @@ def foreignStartTag (tag : Tag) : M ProcessResult := do
     let _ ← insertElement true currentNs tag.name tag.attrs tag.hadDup
     pure .done
 
-/-- `is_foreign` (mod.rs:1605) -/
+/-- `is_foreign` (mod.rs:1607) -/
 def isForeign (token : Token) : M Bool := do
   if token == .eof then pure false
   else if (← getS).openElems.isEmpty then pure false
@@ -785,18 +785,24 @@ def isForeign (token : Token) : M Bool := do
           else pure true
       else pure true
 
-/-- the `while` loop of `unexpected_start_tag_in_foreign_content` (mod.rs:1876); fuel: one pop per
+/-- the `while` loop of `unexpected_start_tag_in_foreign_content` (mod.rs:1878); fuel: one pop per
 iteration, `current_node` panics on the empty stack -/
 def popToIntegrationPointLoop : Nat → M Unit
   | 0 => fuelOut "unexpected_start_tag_in_foreign_content"
   | fuel + 1 => do
-    if ← currentNodeIn (fun n => n.ns == nsHtml || mathmlTextIntegrationPoint n || svgHtmlIntegrationPoint n)
-    then pure ()
+    -- `current_node_in(html | MathML text ip | SVG html ip) || sink.is_mathml_annotation_xml_integration_point(current_node)`
+    let stop ← do
+      if ← currentNodeIn (fun n => n.ns == nsHtml || mathmlTextIntegrationPoint n || svgHtmlIntegrationPoint n)
+      then pure true
+      else
+        let cur ← currentNode
+        sinkBool (.isMathmlAnnotationXmlIntegrationPoint cur)
+    if stop then pure ()
     else
       let _ ← pop
       popToIntegrationPointLoop fuel
 
-/-- `process_chars_in_table`, first half (mod.rs:1245): `none` = reprocess in InTableText -/
+/-- `process_chars_in_table`, first half (mod.rs:1247): `none` = reprocess in InTableText -/
 def pendingTableTextEmpty : M Bool := do pure (← getS).pendingTableText.isEmpty
 
 end H5V.Model.HtmlTB
